@@ -382,12 +382,7 @@ func c31Real(op string, t []string, o *vu.Out) string {
 	case okv && mut != 0:
 		o.Fail("", fmt.Sprintf("%s: token accepted although field %d was modified", op, mut))
 	case okv && !within:
-		// saturated difference: the token is from more than 292 years in the presenter's future
-		if d == time.Duration(-1<<63) {
-			o.Fail("retry-token-far-future", fmt.Sprintf("%s: token issued at %v accepted at %v (now.Sub(when) saturates, abs(MinInt64) < 0)", op, issue.UTC(), present.UTC()))
-		} else {
-			o.Fail("", fmt.Sprintf("%s: token accepted %v away from its issue time", op, d))
-		}
+		o.Fail("", fmt.Sprintf("%s: token issued at %v accepted at %v, %v away from its issue time", op, issue.UTC(), present.UTC(), d))
 	case okv && !bytes.Equal(got, odcid):
 		o.Fail("", fmt.Sprintf("%s: accepted token returns original DCID %x", op, got))
 	case !okv && mut == 0 && within:
